@@ -16,7 +16,7 @@ git -C /repo worktree remove --force $WT 2>/dev/null
 git -C /repo worktree add --detach $WT HEAD >/dev/null 2>&1 || { echo "worktree failed"; exit 2; }
 cd $WT
 log=$DST/confirm.log; : > $log
-cp $demo_src $WT/$demo_path
+mkdir -p $(dirname $WT/$demo_path); cp $demo_src $WT/$demo_path
 echo "== demo on unchanged tree ($(git rev-parse --short HEAD)): $demo_cmd" >> $log
 ( timeout 1500 bash -c "$demo_cmd" ) >> $log 2>&1; r0=$?
 echo "exit=$r0" >> $log
@@ -30,7 +30,7 @@ rm -f $WT/$demo_path
 pkgs=$(git diff --name-only | grep '\.go$' | xargs -n1 dirname | sort -u | sed 's#^#./#' | tr '\n' ' ')
 echo "== existing tests of touched packages with change: $pkgs" >> $log
 go build ./... >> $log 2>&1; rb=$?
-timeout 3000 go test -count=1 -vet=off $pkgs > $DST/tests.log 2>&1
+timeout 5000 go test -count=1 -vet=off -timeout 80m $pkgs > $DST/tests.log 2>&1
 tail -40 $DST/tests.log >> $log
 if grep -q "^FAIL\|^--- FAIL\|^panic:" $DST/tests.log; then rt=1; else rt=0; fi
 echo "build=$rb tests_fail=$rt" >> $log
